@@ -1,6 +1,7 @@
 package props
 
 import (
+	"go/token"
 	"fmt"
 	"strings"
 
@@ -227,6 +228,96 @@ func runC05(c *eng.Ctx) {
 			}
 		}
 		c.Check(okAdv, "cursor-advance", adv[len(adv)-1].Instr, alloc, "the data cursor advances by the message length", "no store messageOffset = … + dataLen found")
+	})
+
+	// ---- 3b. a failed page roll-over leaves the write cursor where it was ------------------------------------------
+	c.Rule("GUARD", "pkg/queue.queue{failed page acquisition leaves the cursor}", func() {
+		for _, x := range []struct {
+			fn     string
+			fields []string
+		}{
+			{qAlloc, []string{qT + ".messageOffset", qT + ".dataPageIndex", qT + ".dataPage"}},
+			{qPersist, []string{qT + ".indexPageIndex", qT + ".indexPage"}},
+		} {
+			f := c.Fn(x.fn)
+			acq := c.Some(f, invokeOn("PageFct", "AcquirePage"), "AcquirePage(next)")
+			succ := map[ssa.Instruction]bool{}
+			for _, r := range eng.SuccessReturns(f) {
+				succ[r] = true
+			}
+			var fails []eng.Site
+			for _, b := range f.Blocks {
+				for _, in := range b.Instrs {
+					if r, ok := in.(*ssa.Return); ok && !succ[r] && b != f.Recover {
+						fails = append(fails, eng.Site{Fn: f, Instr: r})
+					}
+				}
+			}
+			c.Check(len(fails) > 0, x.fn+":has-failing-exit", nil, f, x.fn+" reports a failed page acquisition", "no error return")
+			for i, st := range c.Some(f, eng.StoreField(x.fields...), "cursor stores") {
+				_, bad := eng.Reaches(f, st.Instr, fails, nil)
+				c.Check(!bad, fmt.Sprintf("%s:no-cursor-store-before-failing-exit[%d]", x.fn, i), st.Instr, f,
+					"the cursor (page index, page, offset) is moved only when the new page was acquired: no failing exit is reachable after a cursor store",
+					"store to "+p.Desc(st.Instr.(*ssa.Store).Addr)+" can be followed by an error return (the cursor then names a page that is not mapped)")
+			}
+			// and the stores into the new page position are made only on the success edge of the acquisition
+			for i, a := range acq {
+				for j, st := range p.Sites(f, eng.StoreField(x.fields[1:]...)) {
+					ok, why := eng.OkDominates(f, a.Instr, st.Instr)
+					c.Check(ok, fmt.Sprintf("%s:page-switch-only-after-acquire[%d,%d]", x.fn, i, j), st.Instr, f, "the page index / page is switched only after AcquirePage succeeded", why)
+				}
+			}
+		}
+	})
+
+	// ---- 3c. index page number and in-page slot are computed from the same sequence --------------------------------
+	c.Rule("SYMMETRY", "pkg/queue.queue{page = s / N, slot = s % N for one s}", func() {
+		nv, ok := p.ConstInt64("pkg/queue", "indexItemsPerPage")
+		if !ok {
+			c.Undecided("constant pkg/queue.indexItemsPerPage not found")
+		}
+		total := 0
+		for _, fk := range []string{qT + ".Get", qT + ".GC", qPersist, qT + ".initDataPageIndex"} {
+			f := c.Fn(fk)
+			var quo, rem []*ssa.BinOp
+			for _, b := range f.Blocks {
+				for _, in := range b.Instrs {
+					bo, ok := in.(*ssa.BinOp)
+					if !ok {
+						continue
+					}
+					if k, isC := eng.ConstInt(bo.Y); !isC || k != nv {
+						continue
+					}
+					switch bo.Op {
+					case token.QUO:
+						quo = append(quo, bo)
+					case token.REM:
+						rem = append(rem, bo)
+					}
+				}
+			}
+			c.Check(len(quo) >= 1 && len(rem) >= 1, fk+":page-and-slot-computed", nil, f, fk+" computes an index page (s / indexItemsPerPage) and a slot (s % indexItemsPerPage)", fmt.Sprintf("%d divisions, %d remainders", len(quo), len(rem)))
+			for i, qd := range quo {
+				for j, rm := range rem {
+					total++
+					if fk == qT+".initDataPageIndex" {
+						base, k := eng.SplitConstAdd(qd.X)
+						isApp := eng.DependsOn(base, func(x ssa.Value) bool {
+							in, ok := x.(ssa.Instruction)
+							return ok && eng.LoadField(qT+".appendedSeq")(p, in)
+						})
+						c.Check(isApp && k == 0, fmt.Sprintf("%s:entry-of-exactly-appended[%d]", fk, i), qd, f, "on reopen the cursor is restored from the entry of the last appended sequence itself (not a neighbour)", fmt.Sprintf("uses %s (+%d)", p.Desc(base), k))
+					}
+					c.Check(eng.SameValue(qd.X, rm.X), fmt.Sprintf("%s:same-sequence[%d,%d]", fk, i, j), rm, f,
+						"the index page and the slot inside it are computed from the same sequence value (an entry is read from / written to the page that holds it)",
+						"page of "+p.Desc(qd.X)+" but slot of "+p.Desc(rm.X))
+				}
+			}
+		}
+		if total < 4 {
+			c.Undecided("expected >= 4 page/slot pairs, found %d", total)
+		}
 	})
 
 	// ---- 4. LAYOUT: index entry and meta page, writer/reader agreement -----------------------
